@@ -37,12 +37,15 @@ Proof. induction l as [|b l IH]; [reflexivity|]. cbn. rewrite IH. destruct b; re
 Lemma occ_contained : forall sub m oc, (forall e, m e = true) ->
   occ_ok oc (snd (occ_step all_off sub m oc)) = true /\ forall e, fst (occ_step all_off sub m oc) e = true.
 Proof.
-  intros sub m oc Hm. unfold occ_step. destruct oc as [e o|outs]; cbn [occ_step_c].
+  intros sub m oc Hm. unfold occ_step. destruct oc as [e o|outs| |e o]; cbn [occ_step_c].
   - fold (run_site all_off sub e o). rewrite Hm, site_contained. cbn [fst snd]. split.
     + destruct o as [|k]; reflexivity.
     + intros e'. unfold set_alive. cbn. destruct (entry_eqb e e'); [reflexivity|apply Hm].
   - fold (run_callbacks all_off outs). rewrite callbacks_all_off. cbn [fst snd cb_logs cb_sink cb_ran occ_ok ob_served ob_script_logs ob_sink ob_cb_ran].
     split; [|exact Hm]. rewrite count_script_map, N.eqb_refl, list_eqb_bool_refl. reflexivity.
+  - split; reflexivity.
+  - fold (run_site all_off sub e o). rewrite Hm, site_contained. cbn [fst snd]. split; [|reflexivity].
+    destruct o as [|k]; reflexivity.
 Qed.
 
 Theorem history_contained : forall sub h m, (forall e, m e = true) ->
@@ -59,9 +62,10 @@ Qed.
 
 (* whatever the switches: an occurrence of one entry kind does not touch the serving state of any other *)
 Theorem others_undisturbed : forall dv sub m oc e',
-  (match oc with OUser e _ => e <> e' | OCallbacks _ => True end) -> fst (occ_step dv sub m oc) e' = m e'.
+  (match oc with OUser e _ => e <> e' | OCallbacks _ => True | OReload => False | OLate _ _ => False end) ->
+  fst (occ_step dv sub m oc) e' = m e'.
 Proof.
-  intros dv sub m oc e' H. unfold occ_step. destruct oc as [e o|outs]; cbn [occ_step_c]; [|reflexivity].
+  intros dv sub m oc e' H. unfold occ_step. destruct oc as [e o|outs| |e o]; cbn [occ_step_c]; [|reflexivity|contradiction|contradiction].
   destruct (m e) eqn:Em; [|reflexivity]. cbn [fst]. unfold set_alive.
   destruct (entry_eqb e e') eqn:Ee; [|reflexivity]. destruct e, e'; cbn in Ee; try discriminate; congruence.
 Qed.
